@@ -12,7 +12,7 @@ def rcv (mt : Nat) (out : List Delivery) (k : Nat) (fs rxq : List Frame) : Node 
 
 /-- packets `k .. k+x-1` (0-based), none of which ends a CTS window or the message, arrive one after the other -/
 theorem rx_run (out : List Delivery) (fs rxq : List Frame)
-    (hd : b.s.devs = [db]) (hq : Quiet b.s 0) (hsrc : srcA < 256) (hdst : m.dst = db.source)
+    (hd : Lead b db) (hq : Quiet b.s 0) (hsrc : srcA < 256) (hdst : m.dst = db.source)
     (hnone : findIdx (sessOf srcA db.source) S' = none) (hj : j < S'.length) (hlen : m.len ≤ 223) :
     ∀ (x k mt : Nat), (∀ y, y < x → (k + y + 1) % tpCtsPackets (tpPacketCount m.len) ≠ 0) → 7 * (k + x) < m.len →
       rxList ((List.range x).map fun y => dtFrame srcA m (k + y)) (rcv b db m srcA j S' a0 mt out k fs rxq)
@@ -42,13 +42,13 @@ theorem add_mod_of_dvd (k z c : Nat) (hk : k % c = 0) (hz : z < c) : (k + z) % c
 theorem add_mod_self_of_dvd (k c : Nat) (hk : k % c = 0) : (k + c) % c = 0 := by
   rw [Nat.add_mod, hk, Nat.mod_self]; simp
 
-theorem rcv_solo (mt : Nat) (out : List Delivery) (k : Nat) (fs rxq : List Frame) (hd : b.s.devs = [db]) (hq : Quiet b.s 0) :
-    (rcv b db m srcA j S' a0 mt out k fs rxq).s.devs = [db] ∧ Quiet (rcv b db m srcA j S' a0 mt out k fs rxq).s 0 :=
-  ⟨hd, upd_quiet _ _ _ _ _ _ hq⟩
+theorem rcv_solo (mt : Nat) (out : List Delivery) (k : Nat) (fs rxq : List Frame) (hd : Lead b db) (hq : Quiet b.s 0) :
+    Lead (rcv b db m srcA j S' a0 mt out k fs rxq) db ∧ Quiet (rcv b db m srcA j S' a0 mt out k fs rxq).s 0 :=
+  ⟨hd.same _ _ _ _, upd_quiet _ _ _ _ _ _ hq⟩
 
 /-- **the receiver polls with a complete window that neither is the last one**: it grants the next window -/
 theorem poll_window (k c mt : Nat) (hc : c = tpCtsPackets (tpPacketCount m.len))
-    (hd : b.s.devs = [db]) (hq : Quiet b.s 0) (hsrc : srcA < 256) (hdst : m.dst = db.source)
+    (hd : Lead b db) (hq : Quiet b.s 0) (hsrc : srcA < 256) (hdst : m.dst = db.source)
     (hnone : findIdx (sessOf srcA db.source) S' = none) (hj : j < S'.length) (hlen : m.len ≤ 223)
     (hnotp : (b.tp 0).hasPending = false) (hib : InfoIdle b 0) (hkc : k % c = 0) (hfull : 7 * (k + c) < m.len) :
     poll (rcv b db m srcA j S' a0 mt [] k [] ((List.range c).map fun y => dtFrame srcA m (k + y))) =
@@ -77,11 +77,11 @@ theorem poll_window (k c mt : Nat) (hc : c = tpCtsPackets (tpPacketCount m.len))
   have e : k + c' + 1 = k + (c' + 1) := by omega
   have e2 : k + c' + 2 = k + (c' + 1) + 1 := by omega
   rw [e, e2]
-  exact claimTick_solo _ db hd (upd_quiet _ _ _ _ _ _ hq)
+  exact claimTick_lead _ hd.claims
 
 /-- **the receiver polls with the last window**: EndOfMsgACK and exactly one delivery -/
 theorem poll_last (k c x mt : Nat) (hc : c = tpCtsPackets (tpPacketCount m.len))
-    (hd : b.s.devs = [db]) (hq : Quiet b.s 0) (hsrc : srcA < 256) (hdst : m.dst = db.source)
+    (hd : Lead b db) (hq : Quiet b.s 0) (hsrc : srcA < 256) (hdst : m.dst = db.source)
     (hnone : findIdx (sessOf srcA db.source) S' = none) (hj : j < S'.length) (hlen : m.len ≤ 223) (hl : m.len ≤ m.data.length)
     (hnotp : (b.tp 0).hasPending = false) (hib : InfoIdle b 0) (hkc : k % c = 0) (hx : 1 ≤ x ∧ x ≤ c)
     (hend : m.len ≤ 7 * (k + x)) (hnot : 7 * (k + x - 1) < m.len) :
@@ -110,10 +110,10 @@ theorem poll_last (k c x mt : Nat) (hc : c = tpCtsPackets (tpPacketCount m.len))
   refine ⟨S'', ?_⟩
   have e : k + x' + 1 = k + (x' + 1) := by omega
   rw [e]
-  exact claimTick_solo _ db hd (upd_quiet _ _ _ _ _ _ hq)
+  exact claimTick_lead _ hd.claims
 
 /-- **the receiver polls with the RTS in its queue**: first CTS, the session slot is set up -/
-theorem poll_rts (hd : b.s.devs = [db]) (hq : Quiet b.s 0) (hsrc : srcA < 256) (hdst : m.dst = db.source)
+theorem poll_rts (hd : Lead b db) (hq : Quiet b.s 0) (hsrc : srcA < 256) (hdst : m.dst = db.source)
     (hlen : m.len ≤ 223) (hpgn : m.pgn < 2^24) (hnotp : (b.tp 0).hasPending = false) (hib : InfoIdle b 0)
     (hknown : (checkKnown m.pgn).1 = true ∨ ¬ b.onlyKnown = true)
     (hS : S' = b.slots.map (freeSess srcA db.source))
@@ -121,18 +121,17 @@ theorem poll_rts (hd : b.s.devs = [db]) (hq : Quiet b.s 0) (hsrc : srcA < 256) (
     poll (b.upd b.tp b.slots [] [] [cmFrame srcA m.dst (announceBytes 16 m)]) =
       rcv b db m srcA j S' a0 (millis32 b.s.now) [] 0 [cmFrame db.source srcA (ctsBytes m.pgn (tpPacketCount m.len) 1)] [] := by
   have hdsrc : db.source ≤ 251 := by
-    obtain ⟨d', hd', hs, _⟩ := hq.dev
-    rw [hd] at hd'; simp at hd'; subst hd'; exact hs
+    exact hd.src hq
   generalize hN : b.upd b.tp b.slots [] [] [cmFrame srcA m.dst (announceBytes 16 m)] = N
   have hNq : Quiet N.s 0 := by subst hN; exact upd_quiet _ _ _ _ _ _ hq
-  have hNd : N.s.devs = [db] := by subst hN; exact hd
+  have hNd : Lead N db := by subst hN; exact hd.same _ _ _ _
   rw [poll_solo N db hNd hNq (by subst hN; exact hib) (fun h => by subst hN; simp [hnotp] at h) (by subst hN; simp)]
   have hrx : N.rxq = [cmIn srcA db.source (announceBytes 16 m)] := by subst hN; rw [← hdst]; rfl
   rw [hrx]
   simp only [rxList, List.foldl_cons, List.foldl_nil]
   rw [rxFrame_cm N srcA db.source _ hsrc (by omega) (by simp [announceBytes, le3])]
   unfold handleCM
-  have hfd : findDev N.s.devs db.source = some 0 := by rw [hNd]; exact findDev_solo db (by omega)
+  have hfd : findDev N.s.devs db.source = some 0 := findDev_lead hNd.dev0 (by omega)
   have hpc : packetCount m.len % 256 = tpPacketCount m.len := by
     rw [packetCount_eq]; have := tpPacketCount_le m.len hlen; omega
   have hsz : m.len % 256 + m.len / 256 % 256 * 256 = m.len := by omega
@@ -142,7 +141,7 @@ theorem poll_rts (hd : b.s.devs = [db]) (hq : Quiet b.s 0) (hsrc : srcA < 256) (
   have hNs : N.slots = b.slots := by subst hN; rfl
   have hNn : N.s.now = b.s.now := by subst hN; rfl
   have hNo : N.onlyKnown = b.onlyKnown := by subst hN; rfl
-  rw [handleStart_rts_quiet N srcA db.source 0 m.pgn m.len (tpPacketCount m.len) j db a0 hNq (by rw [hNd]; rfl) hsrc hlen
+  rw [handleStart_rts_quiet N srcA db.source 0 m.pgn m.len (tpPacketCount m.len) j db a0 hNq hNd.dev0 hsrc hlen
         (by rw [hNo]; exact hknown) (by rw [hNs, ← hS]; exact hj) (by rw [hNs, ← hS]; exact ha0)]
   rw [hNs, ← hS, hNn]
   subst hN
@@ -150,7 +149,7 @@ theorem poll_rts (hd : b.s.devs = [db]) (hq : Quiet b.s 0) (hsrc : srcA < 256) (
         [cmFrame srcA m.dst (announceBytes 16 m)] →
       claimTick { X with rxq := [] } = rcv b db m srcA j S' a0 (millis32 b.s.now) [] 0 [cmFrame db.source srcA (ctsBytes m.pgn (tpPacketCount m.len) 1)] [] := by
     intro X hX; subst hX
-    exact claimTick_solo _ db hd (upd_quiet _ _ _ _ _ _ hq)
+    exact claimTick_lead _ hd.claims
   apply hres
   rfl
 
@@ -163,16 +162,15 @@ def doneTp (a : Node) (m : Msg) (seq : Nat) : Nat → TpDev :=
 
 /-- **the sender polls with the EndOfMsgACK in its queue**: the transfer is over -/
 theorem poll_endack (a : Node) (d : Dev) (m : Msg) (peer seq t0 tmo nb np : Nat) (sl : List Slot) (out : List Delivery)
-    (hd : a.s.devs = [d]) (hq : Quiet a.s 0) (hi : InfoIdle a 0) (hm : m.dst = peer) (hpeer : peer < 255)
+    (hd : Lead a d) (hq : Quiet a.s 0) (hi : InfoIdle a 0) (hm : m.dst = peer) (hpeer : peer < 255)
     (hpgn : m.pgn < 2^24) (htmo : tmo ≤ 100) (ht0 : t0 ≤ a.s.now ∧ a.s.now < t0 + tmo) (h64 : a.s.now + 100 < M64) :
     poll (a.upd (txTp a m seq t0 tmo) sl out [] [cmFrame peer d.source (endAckBytes m.pgn nb np)]) =
       a.upd (doneTp a m seq) sl out [] [] := by
   have hsrc : d.source ≤ 251 := by
-    obtain ⟨d', hd', hs, _⟩ := hq.dev
-    rw [hd] at hd'; simp at hd'; subst hd'; exact hs
+    exact hd.src hq
   generalize hN : a.upd (txTp a m seq t0 tmo) sl out [] [cmFrame peer d.source (endAckBytes m.pgn nb np)] = N
   have hNq : Quiet N.s 0 := by subst hN; exact upd_quiet _ _ _ _ _ _ hq
-  have hNd : N.s.devs = [d] := by subst hN; exact hd
+  have hNd : Lead N d := by subst hN; exact hd.upd _ _ _ _ _ (fun k hk => by simp [txTp, Nat.ne_of_gt hk, hd.others k hk])
   have hNt : (N.tp 0).timer.isTime N.s.flavor N.s.now = false := by
     subst hN
     simp only [upd_tp, txTp, ↓reduceIte, upd_flavor, upd_now]
@@ -183,7 +181,7 @@ theorem poll_endack (a : Node) (d : Dev) (m : Msg) (peer seq t0 tmo nb np : Nat)
   simp only [rxList, List.foldl_cons, List.foldl_nil]
   rw [rxFrame_cm N peer d.source _ (by omega) (by omega) (by simp [endAckBytes, le3])]
   unfold handleCM
-  have hfd : findDev N.s.devs d.source = some 0 := by rw [hNd]; exact findDev_solo d (by omega)
+  have hfd : findDev N.s.devs d.source = some 0 := findDev_lead hNd.dev0 (by omega)
   simp only [hfd, endAckBytes, le3, List.cons_append, List.nil_append, List.getD_cons_zero, List.getD_cons_succ, le3_sum m.pgn hpgn]
   simp only [Nat.reduceEqDiff, or_self, true_or, ↓reduceIte]
   have hpend : (N.tp 0).pend = m := by subst hN; simp [txTp]
@@ -201,7 +199,7 @@ theorem poll_endack (a : Node) (d : Dev) (m : Msg) (peer seq t0 tmo nb np : Nat)
   have hres : ∀ X : Node, X = a.upd (doneTp a m seq) sl out [] [cmFrame peer d.source (endAckBytes m.pgn nb np)] →
       claimTick { X with rxq := [] } = a.upd (doneTp a m seq) sl out [] [] := by
     intro X hX; subst hX
-    exact claimTick_solo _ d hd (upd_quiet _ _ _ _ _ _ hq)
+    exact claimTick_lead _ hd.claims
   apply hres
   unfold endSendTP
   simp only [upd_setTp, upd_tp, upd_flavor]
